@@ -332,10 +332,20 @@ func finalC26(h *Hist, col *stats.Collector) {
 				n.Recover()
 			}
 			for _, sw := range n.Swaps() {
-				if sw.Current != swap.State_ClaimedCsv || sw.Data == nil || isTaker(sw) {
+				if sw.Data == nil || isTaker(sw) {
+					continue
+				}
+				// ended with the csv refund: the terminal state, or (after the restart of round 1) the
+				// claiming state with the refund transaction already recorded - the refund is out, whatever
+				// else the node still has to do about this swap
+				refundRecorded := strings.Contains(string(sw.Current), "ClaimSwapCsv") && sw.Data.ClaimTxId != "" && round == 1
+				if sw.Current != swap.State_ClaimedCsv && !refundRecorded {
 					continue
 				}
 				h.class("csv-refund-ending")
+				if refundRecorded {
+					h.class("csv-refund-recorded-not-finished")
+				}
 				peer := sw.Data.PeerNodeId
 				fresh, err := policy.CreateFromFile(n.PolicyPath)
 				if err != nil {
